@@ -198,9 +198,24 @@ func c16Exec(sc c16Scenario) (string, map[string]bool) {
 		return fmt.Sprintf("scrape before the stream was opened: returned=%v panic=%v", ret, pv), s.labels
 	}
 	s.openNow()
+	var scrape func()
 	s.onRebalance = func(op hOp) (int, int) {
-		total = 1 + ((op.Gap%4)+4)%4
-		member = 1 + ((op.N%total)+total)%total
+		nt := 1 + ((op.Gap%4)+4)%4
+		nm := 1 + ((op.N%nt)+nt)%nt
+		if ((op.Snap%2)+2)%2 == 0 && s.viol == nil {
+			// the new membership information has arrived, the stream has not reacted yet: it still streams the old range with
+			// the old numbers, and those are the values in effect until it has been reopened
+			newLo, newHi := s.lo, s.hi
+			s.lo, s.hi = s.prevLo, s.prevHi
+			bus.Publish(helpers.MembershipChangedBusEventName, &membership.Model{MemberNumber: nm, TotalMembers: nt})
+			bus.WaitAsync()
+			scrape()
+			s.label("scrape_between_info_change_and_reopen")
+			s.lo, s.hi = newLo, newHi
+			total, member = nt, nm
+			return c16Range(h.NumVb, total, member)
+		}
+		total, member = nt, nm
 		announce()
 		return c16Range(h.NumVb, total, member)
 	}
@@ -211,7 +226,7 @@ func c16Exec(sc c16Scenario) (string, map[string]bool) {
 		s.label("scrape_while_closed")
 	}
 	nScrape := 0
-	scrape := func() {
+	scrape = func() {
 		spec := c16Scrape{Rel: []int{3}}
 		if nScrape < len(sc.Scrapes) {
 			spec = sc.Scrapes[nScrape]
